@@ -197,3 +197,136 @@ def xclasses(ctx):
     else:
         ctx.twins += 1
     ctx.sample({"classes": XCLASSES, "pairs_sharing_a_directory": npairs})
+
+
+# ---------------------------------------------------------------------------------------
+# P1: on a parsed and correlated (symbolic) project, distinct entities have distinct URLs (page or page#anchor)
+# ---------------------------------------------------------------------------------------
+from fv import choice as _choice, parserh as _parserh  # noqa: E402
+from fv.choice import CV as _CV  # noqa: E402
+
+N1 = ["init", "Init", "setup"]
+N2 = ["init", "INIT", "solve"]
+BODY = ["saxpy", "daxpy", "axpy_impl"]
+PSET10 = dict(proc_internals=True, display=["public", "private", "protected"])
+
+
+def _url_files(n1, n2, b1, b2, tname):
+    return {
+        "a.f90": ["module mod_a", "interface axpy", f"subroutine {b1}(x)" if isinstance(b1, str) else _choice.apply(lambda b: f"subroutine {b}(x)", b1),
+                  "real :: x", "end subroutine", f"subroutine {b2}(x)" if isinstance(b2, str) else _choice.apply(lambda b: f"subroutine {b}(x)", b2),
+                  "double precision :: x", "end subroutine", "end interface axpy",
+                  _choice.apply(lambda t: f"type {t}", tname), "integer :: init", "contains", "procedure :: run", "end type",
+                  "contains", _choice.apply(lambda n: f"subroutine {n}()", n1), "integer :: init", "contains",
+                  "subroutine helper()", "end subroutine helper", "end subroutine",
+                  "subroutine run(self)", "class(*) :: self", "end subroutine run", "end module mod_a"],
+        "b.f90": ["module mod_b", "contains", _choice.apply(lambda n: f"subroutine {n}()", n2), "end subroutine",
+                  "subroutine helper()", "end subroutine helper", "end module mod_b"],
+    }
+
+
+def _all_entities(p):
+    out = []
+
+    def walk(e):
+        out.append(e)
+        for l in ("modules", "submodules", "programs", "subroutines", "functions", "types", "interfaces", "absinterfaces", "variables",
+                  "boundprocs", "args", "routines"):
+            v = getattr(e, l, None)
+            if l == "routines":
+                try:
+                    v = list(v) if v is not None else None
+                except TypeError:
+                    v = None
+            if isinstance(v, (list, tuple)):
+                for x in v:
+                    if hasattr(x, "get_url") and not any(x is y for y in out):
+                        walk(x)
+        pr = getattr(e, "procedure", None)
+        if pr is not None and hasattr(pr, "get_url") and not any(pr is y for y in out):
+            walk(pr)
+    for f in p.files:
+        walk(f)
+    return out
+
+
+def _describe(e):
+    par = getattr(e, "parent", None)
+    return f"{type(e).__name__}:{getattr(par, 'name', '')}/{getattr(e, 'name', '')}"
+
+
+def replay_urls(w):
+    import io, contextlib
+    with contextlib.redirect_stdout(io.StringIO()), contextlib.redirect_stderr(io.StringIO()):
+        p = _parserh.project_concrete(_url_files(*w["slots"]), **PSET10)
+    ents = _all_entities(p)
+    seen, dup = {}, []
+    for e in ents:
+        u = e.get_url()
+        if u is None:
+            continue
+        k = u.lower()
+        # an interface and its single procedure share a page by design; the same object reached twice is not a clash
+        if k in seen and seen[k] is not e and not _same_page_by_design(seen[k], e):
+            dup.append((u, _describe(seen[k]), _describe(e)))
+        seen.setdefault(k, e)
+    return bool(dup), {"files": _url_files(*w["slots"]), "shared_urls": dup[:5]}
+
+
+def _same_page_by_design(a, b):
+    """a non-generic interface and the procedure it declares are one documented item"""
+    import ford.sourceform as sf
+    for x, y in ((a, b), (b, a)):
+        if isinstance(x, sf.FortranInterface) and not x.generic and getattr(x, "procedure", None) is y:
+            return True
+    return False
+
+
+@obligation("C10", "P1.distinct-urls-on-a-project", engine="SX(CV)", timeout=1800)
+def urls(ctx):
+    """parsed + correlated symbolic project (procedure / type / interface-body names chosen symbolically, reused across modules and in
+    different letter case): two different entities never get the same URL (ignoring case), page or page#anchor"""
+    import io, contextlib
+    import ford.sourceform as sf
+
+    ctx.encode_fn(sf.FortranBase.get_url)
+    ctx.encode_fn(sf.FortranBase.get_dir)
+    ctx.encode_fn(sf.NameSelector.get_name)
+    ctx.encode_text("FortranProcedure.ident/get_dir", __import__("inspect").getsource(sf.FortranProcedure), "python-source")
+    ctx.bounds.update({"names": {"procedure in mod_a": N1, "procedure in mod_b": N2, "interface bodies": BODY, "type": ["init", "shape"]}})
+
+    def h(E):
+        n1 = _CV.choice(E, "n1", N1)
+        n2 = _CV.choice(E, "n2", N2)
+        b1 = _CV.choice(E, "b1", BODY[:2])
+        b2 = _CV.choice(E, "b2", BODY[1:])
+        tn = _CV.choice(E, "tn", ["init", "shape"])
+        E.assume(_choice.apply(lambda a, b: a != b, b1, b2))
+        # one scope cannot declare a procedure and a type of the same name
+        E.assume(_choice.apply(lambda a, t: a.lower() != t.lower(), n1, tn))
+        E.e.snapshot = lambda m: {"slots": [_choice.value_in_model(m, x) for x in (n1, n2, b1, b2, tn)]}
+        with contextlib.redirect_stdout(io.StringIO()), contextlib.redirect_stderr(io.StringIO()):
+            urls_ = _parserh.project(_url_files(n1, n2, b1, b2, tn), post=lambda p: [(e, e.get_url()) for e in _all_entities(p)], **PSET10)
+        E.reachable("urls")
+        urls_ = [(e, u) for e, u in urls_ if u is not None]
+        for i in range(len(urls_)):
+            for j in range(i):
+                a, b = urls_[i], urls_[j]
+                if _same_page_by_design(a[0], b[0]):
+                    continue
+                E.require(_choice.apply(lambda x, y: str(x).lower() != str(y).lower(), a[1], b[1]),
+                          "two different entities share one URL")
+
+    E = sym.Engine(ctx, max_paths=50000, incremental=True)
+    found = E.explore(h)
+    seen = set()
+    for (label, m, pc), snap in zip(found, E.snapshots):
+        if label in seen:
+            continue
+        seen.add(label)
+        ctx.report(label, snap, replay_urls)
+    if E.reached.get("urls"):
+        ctx.twins += 1
+    else:
+        ctx.inconclusive.append("vacuity: no URLs computed")
+    ctx.sample({"paths": E.paths})
